@@ -195,7 +195,11 @@ LETTERS = "abcdefghijklmnopqrstuvwxyzABCDEFGHIJKLMNOPQRSTUVWXYZ"
 
 
 def p1_maxlen(tier):
-    return 6 if tier == "quick" else 8
+    return 6 if tier == "quick" else 7
+
+
+P1X_LEN = 8  # thorough only: one more length, over a reduced protocol list
+P1X_PROTOCOLS = ["http", "https://", "x", "a" * 64 + "://"]
 
 
 def sec_p1(cx, tier, seed, prefix):
@@ -215,6 +219,19 @@ def sec_p1(cx, tier, seed, prefix):
             check_protocol(cx, u, p, counted=False)
     for c in PROTO_CLAUSES:
         cx.n(c, len(strings) * len(prots))
+
+
+def sec_p1x(cx, tier, seed, prefix):
+    k = 0
+    for t in itertools.product(P1_ALPHA, repeat=P1X_LEN - 2):
+        u = prefix + "".join(t)
+        if R.lead_kind(u) != "none":
+            cx.col.nontriv("P:" + u)
+        for p in P1X_PROTOCOLS:
+            check_protocol(cx, u, p, counted=False)
+        k += 1
+    for c in PROTO_CLAUSES:
+        cx.n(c, k * len(P1X_PROTOCOLS))
 
 
 def sec_p2(cx, tier, seed, pi):
@@ -782,13 +799,17 @@ def sec_s3(cx, tier, seed, shard):
 
 # ------------------------------------------------------------------------------------------------ driver
 
-SECTIONS = {"P1": sec_p1, "P2": sec_p2, "P3": sec_p3, "F1d": sec_f1d, "F1l": sec_f1l, "F2": sec_f2, "F3": sec_f3, "F4": sec_f4,
+SECTIONS = {"P1": sec_p1, "P1x": sec_p1x, "P2": sec_p2, "P3": sec_p3, "F1d": sec_f1d, "F1l": sec_f1l, "F2": sec_f2, "F3": sec_f3, "F4": sec_f4,
             "A1": sec_a1, "A2": sec_a2, "S1": sec_s1, "S2": sec_s2, "S3": sec_s3}
 
 
 def make_jobs(tier, seed):
     jobs = []
     # heaviest first
+    if tier != "quick":
+        for a in P1_ALPHA:
+            for b in P1_ALPHA:
+                jobs.append(("P1x", tier, seed, a + b))
     for a in P1_ALPHA:
         for b in P1_ALPHA:
             jobs.append(("P1", tier, seed, a + b))
@@ -881,7 +902,8 @@ def main():
     L = p1_maxlen(a.tier)
     col.exhaustive = True
     col.bounds = {
-        "protocol_short_strings": {"alphabet": P1_ALPHA, "max_length": L},
+        "protocol_short_strings": {"alphabet": P1_ALPHA, "max_length": L,
+                                   "extra_length_with_4_protocols": None if a.tier == "quick" else P1X_LEN},
         "protocol_url_grammar": {"prefix": len(P2_PREFIX), "host": len(P2_HOST), "path": len(P2_PATH), "query": len(P2_QUERY),
                                  "fragment": len(P2_FRAG)},
         "protocols": protocols(a.tier),
@@ -897,7 +919,7 @@ def main():
                                    "add": 2500 if a.tier == "quick" else 90000, "paths": 1500 if a.tier == "quick" else 50000},
     }
     col.rule = (
-        "protocol helpers: every string of length <= %d over %r and every URL of the grammar prefix(22: none, '//', '://', web/custom "
+        "protocol helpers: every string of length <= %d over %r%s and every URL of the grammar prefix(22: none, '//', '://', web/custom "
         "schemes, 64/65-letter schemes, malformed and doubled ones) x host(7) x path(6) x query(4) x fragment(4), each x %d protocols "
         "(http, https, ftp, wss, custom, upper-case, 1 and 64 letters; with and without trailing '://'), six clauses per pair; "
         "format_url: every dict of <= %s entries and every pair list of <= 2 entries over 11 keys x 17 values (reserved characters "
@@ -910,7 +932,7 @@ def main():
         "protocol-like prefix (helpers), when an argument is dropped / bare / str()-converted / needs escaping, nothing is retained, "
         "slashes meet at the junction or the base carries a query/fragment (builders), when the URL already has items or a fragment "
         "(add_query_argument), when the path has >= 2 segments or an empty one (pathsplit) / >= 1 segment (urlpathsplit)"
-        % (L, "".join(P1_ALPHA), len(protocols(a.tier)), "2" if a.tier == "quick" else "3", 5 if a.tier == "quick" else 6,
+        % (L, "".join(P1_ALPHA), "" if a.tier == "quick" else " (length %d too, x 4 protocols)" % P1X_LEN, len(protocols(a.tier)), "2" if a.tier == "quick" else "3", 5 if a.tier == "quick" else 6,
            S_TOK))
     col.notes.append({"violating_evaluations_per_clause": vtotals})
     if excs:
